@@ -247,6 +247,19 @@ def probe_chunk(args):
                     de = rp["E"] - rm["E"]
                     tf = 2 * H * F[ax]
                     scale = max(abs(tf), abs(de))
+                    if abs(de + tf) > 1e-7 + 2e-4 * scale:
+                        # wrong force, or a geometry where the variable is not differentiable (documented singular geometries)?
+                        # a smooth energy gives half the difference for half the displacement, whatever the force is
+                        ph = [list(q) for q in pos]
+                        mh = [list(q) for q in pos]
+                        ph[a][ax] += H / 2
+                        mh[a][ax] -= H / 2
+                        rph = evaluate(d, cfgtext, masses, charges, sc["cell"], history, ph)
+                        rmh = evaluate(d, cfgtext, masses, charges, sc["cell"], history, mh)
+                        if rph is None or rmh is None or rph.get("E") is None or rmh.get("E") is None or \
+                                abs((rph["E"] - rmh["E"]) - de / 2.0) > 0.02 * abs(de) + 1e-9:
+                            probes = None
+                            break
                     if E0 != E0 or scale != scale:
                         probes = None
                         break
